@@ -233,6 +233,30 @@ def r_ids(repo, rep, R='R15.3'):
         rep.check(child_ok, R, w, 'jigg:child-list:' + kind,
                   '%s span: %s' % (kind, 'carries a terminal reference and no child list' if kind == 'leaf' else 'child is the blank-joined list of the ids its children returned, left first'),
                   '%s span: child attribute is %s' % (kind, ctext))
+    # the leaf position used for terminal references and offsets restarts at 0 for every tree
+    proc0 = jm.get('_ConvertToJiggXML.process')
+    pos_ok = False
+    pos_detail = 'no leaf path'
+    for st, o in SymExec(trav, on_call=on_call, init_env={trav.name: ('func', trav.name, id(trav))}).run():
+        if o != 'return' or not any(c == A(N(p), 'is_leaf') and pol for c, pol, _ in st.conds):
+            continue
+        term_set = [e[1][2][1] for e in st.events if e[0] == 'call' and e[1][1][0] == 'attr' and e[1][1][2] == 'set' and e[1][2] and e[1][2][0] == C('terminal')]
+        if not term_set or term_set[0][0] != 'fstr':
+            pos_detail = 'terminal is %s' % (show(term_set[0]) if term_set else None)
+            continue
+        fields = [x for x in term_set[0][1] if isinstance(x, tuple)]
+        pos = fields[-1]
+        augs = [e for e in st.events if e[0] == 'aug' and e[1] == pos]
+        if pos[0] != 'name':
+            pos_detail = 'the leaf position %s is not a counter local to one call of process()' % show(pos)
+            continue
+        inits = [s_ for s_ in proc0.body if isinstance(s_, ast.Assign) and any(isinstance(t, ast.Name) and t.id == pos[1] for t in s_.targets)]
+        other = [n for n in ast.walk(proc0) if isinstance(n, (ast.AugAssign, ast.Assign)) and n not in inits and
+                 any(isinstance(t, ast.Name) and t.id == pos[1] for t in (n.targets if isinstance(n, ast.Assign) else [n.target]))]
+        pos_ok = len(inits) == 1 and src(inits[0].value) == '0' and len(augs) == 1 and augs[0][2] == '+' and augs[0][3] == C(1) and len(other) == 1
+        pos_detail = 'position variable %s: initialised %s, leaf updates %s, other writes %d' % (pos[1], [src(i.value) for i in inits], [(a[2], show(a[3])) for a in augs], len(other) - 1)
+    rep.check(pos_ok, R, w, 'jigg:leaf-position', 'the leaf position starts at 0 for every tree and advances by one per leaf (%s)' % pos_detail,
+              'terminal references / offsets of the 2nd and later n-best trees are shifted: %s' % pos_detail)
     sp = jm.get('_ConvertToJiggXML.spid')
     ok = any('property' in src(d) for d in sp.decorator_list)
     for st, o in SymExec(sp).run():
